@@ -2,6 +2,8 @@ package sx
 
 import (
 	"fmt"
+	"os"
+	"time"
 	"go/constant"
 	"go/token"
 	"go/types"
@@ -509,6 +511,15 @@ func (w *W) ensureInit(p *ssa.Package) {
 	}
 	w.initDepth++
 	defer func() { w.initDepth-- }()
+	if os.Getenv("GOSX_INITTRACE") != "" {
+		t0 := time.Now()
+		s0 := w.steps
+		defer func() {
+			if d := time.Since(t0); d > 200*time.Millisecond {
+				fmt.Fprintf(os.Stderr, "[init] %s %.1fs %d steps\n", p.Pkg.Path(), d.Seconds(), w.steps-s0)
+			}
+		}()
+	}
 	func() {
 		defer func() {
 			if r := recover(); r != nil {
